@@ -6,19 +6,8 @@ package c09
 // that are non-terminating by the language definition are handled by
 // byDefinition (funcs.go) and fmtRisk (format.go).
 var skipTable = []skipEntry{
-	// (do () (t)) never ends: setupDo only installs an end-test form that is a
-	// list; a symbol or literal test is dropped and the loop runs for ever.
-	// In quoted mode the end-test clause is (quote x), whose test form is the
-	// symbol quote.
-	{Fn: "common-lisp:do", Raw: 2, Args: []string{"*", "*"}, Finding: "do-nonlist-end-test"},
-	{Fn: "common-lisp:do", Raw: 1, Args: []string{"*", "@list|@dotted|@values0|@values2"}, Finding: "do-nonlist-end-test"},
-	{Fn: "common-lisp:do*", Raw: 2, Args: []string{"*", "*"}, Finding: "do-nonlist-end-test"},
-	{Fn: "common-lisp:do*", Raw: 1, Args: []string{"*", "@list|@dotted|@values0|@values2"}, Finding: "do-nonlist-end-test"},
-	// (expt 3 4611686018427387904): the exact integer power is computed by
-	// repeated multiplication with no bound on the size of the result
-	{Fn: "common-lisp:expt", Args: []string{"*", "big62"}, Finding: "expt-huge-exponent"},
 	// (read-line <closed string stream>) spins for ever
-	{Fn: "common-lisp:read-line", Args: []string{"closed-stream"}, Finding: "read-line-closed-stream"},
+	{Fn: "common-lisp:read-line", Args: []string{"@closedstream"}, Finding: "read-line-closed-stream"},
 }
 
 // fmtSkips: format control strings that are not generated (beyond fmtRisk).
